@@ -27,8 +27,13 @@ def sh(cmd, cwd, timeout=600, env=None):
         return 124, "timeout"
 
 
+ROOT = "/tmp/wt-"
+TAG = ""
+BASE = "2bff8af"
+
+
 def verify(pid):
-    wt = "/tmp/wt-%s" % pid
+    wt = ROOT + pid
     out = []
     mdir = os.path.join(wt, "mutants")
     if not os.path.isdir(mdir):
@@ -55,17 +60,17 @@ def verify(pid):
         ok = rc0 == 0 and rc1 != 0 and passed and int(passed.group(1)) == 260 and not failed
         status = "ok" if ok else "REJECTED demo_clean=%s demo_patched=%s tests=%s" % (rc0, rc1, ot.strip()[-80:])
         if ok:
-            dst = "/verif/seeded/%s-%s" % (pid, m)
+            dst = "/verif/seeded/%s-%s%s" % (pid, TAG, m)
             os.makedirs(dst, exist_ok=True)
             for f in ("patch.diff", "demo.py", "README.md"):
                 if os.path.exists(os.path.join(d, f)):
                     shutil.copy(os.path.join(d, f), dst)
             readme = open(os.path.join(d, "README.md")).read() if os.path.exists(os.path.join(d, "README.md")) else ""
             meta = {
-                "id": "%s-%s" % (pid, m), "breaks_property": pid,
+                "id": "%s-%s%s" % (pid, TAG, m), "breaks_property": pid,
                 "origin": "independent sub-agent given only the property text and a scratch worktree",
                 "needs_to_manifest": (readme.split("\n\n")[1] if "\n\n" in readme else readme)[:600],
-                "confirmed": {"base_commit": "2bff8af", "tests_with_patch": "260 passed",
+                "confirmed": {"base_commit": BASE, "tests_with_patch": "260 passed",
                               "demo_on_clean_tree_exit": rc0, "demo_with_patch_exit": rc1,
                               "demo_with_patch_tail": o1[-400:]},
                 "detected_by": None,
@@ -82,6 +87,10 @@ def verify(pid):
 
 if __name__ == "__main__":
     ids = sys.argv[1:]
+    if ids and ids[0] == "--wave2":
+        ROOT, TAG = "/tmp/w2-", "w2"
+        BASE = subprocess.run("git -C /repo rev-parse --short HEAD", shell=True, capture_output=True, text=True).stdout.strip()
+        ids = ids[1:]
     with ThreadPoolExecutor(8) as ex:
         for res in ex.map(verify, ids):
             for r in res:
